@@ -179,3 +179,37 @@ Proof.
   intros t p idx Hwf. unfold strided_default, strided_map, lay_map, lay_strides, lay_stride_raw, rank.
   cbn [st_ext st_strides pat ext_default]. repeat split; reflexivity.
 Qed.
+
+(** * every store of the constructors and every load of extent(i) hits a slot of the dynamic-extents array *)
+Lemma rank_dynamic_split : forall p i, (i < length p)%nat -> static_extent p i = None ->
+  rank_dynamic p = (rank_dynamic (firstn i p) + 1 + rank_dynamic (skipn (S i) p))%nat.
+Proof.
+  induction p as [|x r IH]; intros i Hi Hs; [cbn in Hi; lia|].
+  destruct i as [|i].
+  - unfold static_extent in Hs. cbn in Hs. subst x. cbn [firstn skipn rank_dynamic]. lia.
+  - unfold static_extent in *. cbn [nth] in Hs. cbn [length] in Hi.
+    assert (Hi' : (i < length r)%nat) by lia. specialize (IH i Hi' Hs).
+    change (skipn (S (S i)) (x :: r)) with (skipn (S i) r). cbn [firstn].
+    destruct x as [n|]; cbn [rank_dynamic]; lia.
+Qed.
+
+Theorem dynamic_slot_in_bounds : forall p i, (i < length p)%nat -> static_extent p i = None ->
+  (dynamic_index p i < rank_dynamic p)%nat.
+Proof.
+  intros p i Hi Hs. rewrite dynamic_index_firstn. rewrite (rank_dynamic_split p i Hi Hs). lia.
+Qed.
+
+(* distinct dynamic positions use distinct slots: no store of the fill loop overwrites another one *)
+Theorem dynamic_slot_injective : forall p i j, (i < j)%nat -> (j < length p)%nat ->
+  static_extent p i = None -> (dynamic_index p i < dynamic_index p j)%nat.
+Proof.
+  intros p i j Hij Hj Hs. rewrite !dynamic_index_firstn.
+  assert (Hi : (i < length (firstn j p))%nat) by (rewrite firstn_length; lia).
+  assert (Hs' : static_extent (firstn j p) i = None).
+  { unfold static_extent in *. rewrite <- Hs. clear Hs Hi. revert i j Hij Hj.
+    induction p as [|x r IH]; intros i j Hij Hj; [cbn in Hj; lia|].
+    destruct j as [|j]; [lia|]. destruct i as [|i]; [reflexivity|].
+    cbn [firstn nth]. apply IH; cbn [length] in Hj; lia. }
+  rewrite (rank_dynamic_split (firstn j p) i Hi Hs').
+  rewrite firstn_firstn. rewrite Nat.min_l by lia. lia.
+Qed.
